@@ -151,8 +151,8 @@ def check(pid, tier, seed):
     batches.append(("lock", s1, c1))
     s2, c2 = pool.y_scripts(seed, n)
     # C15's intended use is ONE owner thread for start/clear/update/stop: drop the multi-client phases
-    s2 = "\n".join(l if not l.startswith("X ") else " ".join(t if not t.startswith("prog=") else (t.replace("M", "S") or "prog=Q") for t in l.split(" ")) for l in s2.split("\n"))
-    c2 = {k: " ".join(t if not t.startswith("prog=") else t.replace("M", "S") for t in v.split(" ")) for k, v in c2.items()}
+    s2 = "\n".join(l if not l.startswith("X ") else " ".join(t if not t.startswith("prog=") else (t.replace("M", "S").replace("L", "G") or "prog=Q") for t in l.split(" ")) for l in s2.split("\n"))
+    c2 = {k: " ".join(t if not t.startswith("prog=") else t.replace("M", "S").replace("L", "G") for t in v.split(" ")) for k, v in c2.items()}
     batches.append(("pool", s2, c2))
     s3, c3 = expiry_programs(seed, n)
     batches.append(("pool", s3, c3))
